@@ -216,6 +216,30 @@ WS: /\\s+/;
 Comment: /#.*/;
 """, sentences=["foo bar", "foo # c\n bar baz", "foo", " foo  bar "], invalid=["foo ?", " ?", "?", "foo? bar", ""],
         w=True, w_reason="layout rule; W uses ASCII whitespace only", w_ascii_only=True)
+# LR: two same-priority regex terminals match the same word with the same
+# length; the documented tie-break is grammar order (the first one wins)
+add("h_lex_tie_lr", None, algo="lr", inline="""Prog: Stmt+;
+Stmt: Name '=' Num ';' | Hex ':' Num ';';
+terminals
+Eq: '=';
+Colon: ':';
+Semi: ';';
+Name: /[a-z]+/;
+Hex: /[0-9a-f]+/;
+Num: /[0-9]+/;
+""", sentences=["abc = 1 ;", "12 : 3 ;", "abc = 1 ; 9f : 2 ; zz = 3 ;", "face = 10 ;"], invalid=["abc : 1 ;", "abc = ;"],
+    c12="TG", w=False, w_reason="lexical ambiguity resolved by grammar order")
+add("h_lex_tie3_lr", None, algo="lr", inline="""S: Item+;
+Item: A 'x' | B 'y' | C 'z';
+terminals
+X: 'x';
+Y: 'y';
+Z: 'z';
+A: /[a-c]+/;
+B: /[b-d]+/;
+C: /[c-e]+/;
+""", sentences=["a x", "d y", "e z", "b x c x bc x", "dd y ee z cc x"], invalid=["b y", "c z"],
+    c12="TG", w=False, w_reason="lexical ambiguity resolved by grammar order")
 # two tokenisations that reach the SAME LR state at different offsets
 add("h_tokcount_same_state", None, algo="glr", inline="""S: X A Z;
 X: A | AA;
